@@ -499,6 +499,8 @@ func phases(thorough bool) []phase {
 
 const c06Keys = `^(term|entries|entries-error|firstindex|lastindex|snapshot|initialstate|save-error|create-snapshot-error|create-snapshot-value|nil|panic)$`
 
+const c06DelKeys = `^after-delete-`
+
 const c20Keys = `^(unattached-node-bootstraps-a-zero-group-of-its-own|panic:)`
 
 func main() {
@@ -509,7 +511,7 @@ func main() {
 	}
 	if len(os.Args) > 2 && os.Args[1] == "--replay" {
 		if ev.PartOf(os.Args[2]) == "C06" {
-			ev.ReplayPart("C05", os.Getenv("VERIF_BIN_C06"), c06Keys, os.Args[2], "VERIF_PART_PHASES=^single-group$")
+			ev.ReplayPart("C05", os.Getenv("VERIF_BIN_C06"), c06Keys+"|"+c06DelKeys, os.Args[2])
 		}
 		if ev.PartOf(os.Args[2]) == "C20" {
 			ev.ReplayPart("C05", os.Getenv("VERIF_BIN_C20"), c20Keys, os.Args[2], "VERIF_PART_MODE=directed", "VERIF_TUNABLE_snapshotOffset=0")
@@ -686,6 +688,9 @@ func main() {
 	// back is the log store's answer - C06's single-group phase counts here for every answer raft would get wrong
 	if os.Getenv("VERIF_AS") == "" {
 		run.RunPart("log-store-C06", os.Getenv("VERIF_BIN_C06"), c06Keys, "VERIF_PART_PHASES=^single-group$")
+		// a replica that lost its place in a group and gets it back starts from an empty store - whatever the deleted
+		// group leaves behind (a commit position, a vote) the new replica would resume from: C06's group-deletion answers
+		run.RunPart("log-store-deletion-C06", os.Getenv("VERIF_BIN_C06"), c06DelKeys, "VERIF_PART_PHASES=^two-groups-adjacent-ids$")
 		// "it neither re-bootstraps, forks history, nor panics": the start-up decision (bootstrap / join / restart) is taken
 		// by the server; C20's directed histories on real servers count here for a node that starts a history of its own
 		// and for panics
